@@ -40,6 +40,46 @@ pub fn oracle<E: Engine>(_ctx: &RunCtx, spec: &TripleSpec, log: &mut CaseLog) ->
             }
         }
     }
+    // ... and inside a batch next to an honest proof of another aggregation size, in both orders
+    {
+        let pm = if t.cfg.m >= 2 { 1 } else { 2 };
+        let pspec = TripleSpec {
+            cfg: Cfg {
+                bits: t.cfg.bits,
+                m: pm,
+                cap: pm,
+                ext: t.cfg.ext,
+            },
+            seed: crate::gen::SeedSpec::None,
+            bulk: spec.bulk ^ 0xbeef,
+            ..spec.clone()
+        };
+        if t.cfg.bits * pm <= 4096 {
+            let partner = Triple::<E>::build(&pspec)?;
+            let pproof = guarded(|| partner.prove())?.map_err(|e| format!("prover refused a valid witness: {:?}", e))?;
+            for order in 0..2 {
+                let (mut ts, sts, ps) = if order == 0 {
+                    (vec![partner.transcript(), t.transcript()], vec![partner.st.clone(), t.st.clone()], vec![pproof.clone(), proof.clone()])
+                } else {
+                    (vec![t.transcript(), partner.transcript()], vec![t.st.clone(), partner.st.clone()], vec![proof.clone(), pproof.clone()])
+                };
+                for act in [tari_bulletproofs_plus::range_proof::VerifyAction::VerifyOnly, tari_bulletproofs_plus::range_proof::VerifyAction::RecoverAndVerify] {
+                    let mut ts2 = ts.clone();
+                    guarded(|| E::verify(&mut ts2, &sts, &ps, act))?.map_err(|e| {
+                        format!(
+                            "two honest proofs (aggregation {} and {}, order {}) rejected as a batch in {}: {:?}",
+                            t.cfg.m,
+                            pm,
+                            order,
+                            action_name(act),
+                            e
+                        )
+                    })?;
+                }
+                ts.clear();
+            }
+        }
+    }
     // independent reference verifier on the same bytes
     let pf = Proof::parse_layout(&bytes).map_err(|e| format!("reference parser refuses prover output: {:?}", e))?;
     match verify_residual(&mut t.transcript(), &t.ref_stmt(), &pf) {
@@ -79,6 +119,79 @@ fn sub_for<E: Engine>(cases: (usize, usize)) -> Sub {
     )
 }
 
+/// long all-honest batches with mixed aggregation sizes (completeness must not depend on the batch's size or composition)
+#[derive(Clone, Debug, serde::Serialize, serde::Deserialize)]
+pub struct LongSpec {
+    pub bits_idx: u8,
+    pub ext: usize,
+    pub pool: Vec<crate::props::c03::PoolMember>,
+    pub k: u16,
+    pub order: u64,
+    pub mode: u8,
+}
+
+pub fn long_oracle<E: Engine>(_ctx: &RunCtx, spec: &LongSpec, log: &mut CaseLog) -> Result<(), String> {
+    use crate::props::c03::{build_member, verify_members, Member};
+    use rand_core::RngCore;
+    E::reset_case();
+    let bits = crate::gen::BITS[spec.bits_idx as usize % 4];
+    let pool: Vec<Member<E>> = spec
+        .pool
+        .iter()
+        .map(|pm| build_member::<E>(bits, spec.ext, pm, bits.max(16)))
+        .collect::<Result<_, _>>()?;
+    let k = spec.k as usize;
+    let mut rng = crate::gen::chacha(spec.order);
+    let seq: Vec<&Member<E>> = (0..k).map(|_| &pool[(rng.next_u32() as usize) % pool.len()]).collect();
+    let act = ACTIONS[spec.mode as usize % 3];
+    let r = verify_members::<E>(&seq, act)?;
+    match r {
+        Ok(masks) if masks.len() == k => {},
+        Ok(masks) => return Err(format!("{} results for an all-honest batch of {}", masks.len(), k)),
+        Err(e) => {
+            return Err(format!(
+                "all-honest batch of {} proofs (aggregation sizes {:?}) rejected in {}: {}",
+                k,
+                pool.iter().map(|m| m.m).collect::<std::collections::BTreeSet<_>>(),
+                action_name(act),
+                e
+            ))
+        },
+    }
+    log.label(format!("engine={}", E::NAME));
+    log.label(format!("long-batch:k={}", if k > 512 { ">512" } else if k > 256 { "257-512" } else { "<=256" }));
+    log.nontrivial(&(k, bits, spec.ext, spec.order));
+    log.sample(json!({"engine": E::NAME, "kind": "all-honest batch", "k": k, "bits": bits, "ext": spec.ext, "mode": action_name(act)}));
+    Ok(())
+}
+
+fn long_sub<E: Engine>(cases: (usize, usize)) -> Sub {
+    sub(
+        &format!("{}/honest-long-mixed-batches", E::NAME),
+        crate::runner::no_fixed,
+        cases,
+        |_: &RunCtx, _: Option<&()>| {
+            (
+                0u8..4,
+                1usize..=6,
+                prop::collection::vec(crate::props::c03::pool_member_valid(), 2..=5),
+                prop_oneof![1 => 2u16..=40, 2 => 250u16..=270, 2 => 500u16..=530, 1 => 271u16..=700],
+                any::<u64>(),
+                0u8..3,
+            )
+                .prop_map(|(bits_idx, ext, pool, k, order, mode)| LongSpec {
+                    bits_idx,
+                    ext,
+                    pool,
+                    k,
+                    order,
+                    mode,
+                })
+        },
+        long_oracle::<E>,
+    )
+}
+
 pub fn def() -> PropertyDef {
     PropertyDef {
         id: "C01",
@@ -87,7 +200,7 @@ pub fn def() -> PropertyDef {
                each with per-slot value class {0,1,2^b-1,2^(b-1),2^(b-1)-1,uniform,top-half}, promise class {None,0,v,v-1,v/3,uniform<=v}, blinding \
                component classes {uniform,0,1,-1}, transcript context, prover RNG model {ChaCha, all-zero, constant, period-8, counter} and seed \
                class; on engines R (Ristretto) and F (free module). Oracle: prove Ok, verify Ok in all three modes, independent reference \
-               verifier accepts the bytes, F residual is zero. Non-trivial = the tuple (bits,m,cap,degree,value class,promise class,seed?,rng model) \
+               verifier accepts the bytes, F residual is zero; the proof is also accepted in a 2-batch next to an honest proof of another aggregation size (both orders). Second generator: all-honest batches of 2-700 members (sizes around 256 and 512 stratified) drawn from a pool of 2-5 honest members with mixed aggregation sizes must be accepted with exactly k results. Non-trivial = the tuple (bits,m,cap,degree,value class,promise class,seed?,rng model) \
                is outside the repository suite's 16 tuples-with-healthy-RNG; distinct by that tuple."
             .into(),
         assumptions: vec![
@@ -95,6 +208,11 @@ pub fn def() -> PropertyDef {
             "size bound bits*capacity <= 2048 (quick F) / 512 (quick R) / 8192 (thorough F) / 2048 (thorough R) is a cost bound of the check".into(),
         ],
         exhaustive: false,
-        subs: vec![sub_for::<F>((20_000, 200_000)), sub_for::<R>((2000, 15_000))],
+        subs: vec![
+            sub_for::<F>((20_000, 200_000)),
+            sub_for::<R>((2000, 15_000)),
+            long_sub::<F>((160, 3000)),
+            long_sub::<R>((24, 300)),
+        ],
     }
 }
